@@ -125,7 +125,7 @@ def alias_rules(F, R, d):
             rr = call_bool_branch(b, ibi)
             if rr and rr[0] != 'discr':
                 dup_regions |= b.reachable(rr[2], avoid=[rr[1]])
-    exits = [bi for bi, j, s in agg_sites(b, r'^std::result::Result$', 'Ok') if bi in reg and s['lhs']['l'] == 0 and bi not in dup_regions] + [new_bi]
+    exits = [bi for bi, j, s in agg_sites(b, r'^std::result::Result$', 'Ok') if bi in reg and s['lhs']['l'] in b.ret_locals and bi not in dup_regions] + [new_bi]
     early = [x for x in exits if alias_sw and not b.must_pass(set(alias_sw), x)]
     R.ob('C17.bind', '%s|alias-handling-before-every-accepting-exit' % d.name, bool(alias_sw) and not early,
          'the PUBLISH arm can finish (message accepted but dropped, e.g. connection closing) before the topic-alias block ran: the binding carried by that PUBLISH is lost and a later alias-only PUBLISH is refused or resolves to a stale topic',
